@@ -14,6 +14,8 @@ package main
 import (
 	"fmt"
 	"strings"
+
+	"github.com/osteele/liquid"
 )
 
 func init() {
@@ -327,6 +329,32 @@ func delimsStream(r *Run) {
 		}
 		pair(randomGoodQuad(g, alpha, 3, 4), "random-len3-4", tokGenOpts{})
 	}
+	// 3c. Engine.Delims called more than once: the LAST call decides all four positions ("" = the default), whatever
+	// an earlier call selected. Implementation only (the model has no history of configuration calls).
+	if r.Shard == 0 {
+		delimsTwiceFamily(r)
+	}
+	// 3b. delimiters that contain a hyphen, or end in / begin with the characters an expression may start with:
+	// the hyphen next to a delimiter is found by POSITION (delimiter length), never by stripping characters
+	nh := 1500
+	if thorough {
+		nh = 15000
+	}
+	for i := 0; i < nh; i++ {
+		var d [4]string
+		for {
+			d = randomGoodQuad(g, "<>-~(", 2, 3)
+			hy := false
+			for _, x := range d {
+				hy = hy || strings.ContainsAny(x, "-(")
+			}
+			// a hyphen at the edge that faces the inside of the tag would read as a trim marker: keep it off that edge
+			if hy && !strings.HasSuffix(d[0], "-") && !strings.HasSuffix(d[2], "-") && !strings.HasPrefix(d[1], "-") && !strings.HasPrefix(d[3], "-") {
+				break
+			}
+		}
+		pair(d, "hyphen-or-paren-in-delims", tokGenOpts{})
+	}
 	// 4. every subset of positions left empty
 	n = 250
 	if thorough {
@@ -372,4 +400,52 @@ func bitsSet(m int) int {
 		n += m & 1
 	}
 	return n
+}
+
+func delimsTwiceFamily(r *Run) {
+	eff := func(d [4]string) [4]string {
+		def := [4]string{"{{", "}}", "{%", "%}"}
+		for i := range d {
+			if d[i] == "" {
+				d[i] = def[i]
+			}
+		}
+		return d
+	}
+	items := func(d [4]string) string {
+		e := eff(d)
+		return "a " + e[0] + " x " + e[1] + " b " + e[2] + " if x " + e[3] + "T" + e[2] + " endif " + e[3] + " {{ x }} << x >> {% y %} <% z %> [[ x ]]"
+	}
+	seqs := [][][4]string{
+		{{"<<", ">>", "<%", "%>"}, {"", "", "[%", "%]"}},
+		{{"<<", ">>", "<%", "%>"}, {"", "", "", ""}},
+		{{"[[", "]]", "", ""}, {"", "", "<%", "%>"}},
+		{{"<<", ">>", "<%", "%>"}, {"[[", "]]", "", ""}, {"", ">>", "", ""}},
+		{{"", "", "", ""}, {"<<", ">>", "", ""}},
+	}
+	for si, seq := range seqs {
+		last := seq[len(seq)-1]
+		src := items(last)
+		render := func(e *liquid.Engine) string {
+			return guard(func() string {
+				out, err := e.ParseAndRenderString(src, map[string]any{"x": 1})
+				if err != nil {
+					return "err " + err.Error()
+				}
+				return "ok " + out
+			})
+		}
+		e1 := liquid.NewEngine()
+		for _, d := range seq {
+			e1.Delims(d[0], d[1], d[2], d[3])
+		}
+		e2 := liquid.NewEngine()
+		e2.Delims(last[0], last[1], last[2], last[3])
+		got, want := render(e1), render(e2)
+		r.Count("delims-called-twice")
+		if got != want {
+			r.Violate("C19", "empty-string-selects-default", fmt.Sprintf("delims-twice %d %s", si, hexField(src)),
+				fmt.Sprintf("after the calls %q the engine renders %q as %q; an engine configured by the last call alone renders %q", seq, src, got, want))
+		}
+	}
 }
